@@ -820,12 +820,18 @@ func (s *ShapeIndex) maybeApplyUpdates() {
 	// is fresh and when updating the status to be fresh. This guarantees
 	// that any thread that sees a status of fresh will also see the
 	// corresponding index updates.
+	verifSched(1, s)
 	if atomic.LoadInt32(&s.status) != fresh {
+		verifSched(2, s)
 		s.mu.Lock()
+		verifSched(3, s)
 		s.applyUpdatesInternal()
+		verifSched(4, s)
 		atomic.StoreInt32(&s.status, fresh)
+		verifSched(5, s)
 		s.mu.Unlock()
 	}
+	verifSched(6, s)
 }
 
 // applyUpdatesInternal does the actual work of updating the index by applying all
@@ -1256,6 +1262,7 @@ func (s *ShapeIndex) makeIndexCell(p *PaddedCell, edges []*clippedEdge, t *track
 	}
 
 	// Add this cell to the map.
+	verifSched(8, s)
 	s.cellMap[p.id] = cell
 	s.cells = append(s.cells, p.id)
 
